@@ -277,7 +277,7 @@ func extractShellTables(c *Ctx) *shellModel {
 		if at, ok := tv.Type.Underlying().(*types.Array); ok && at.Len() < 256 {
 			c.bad("R-CLASSOF", "shell.classOf:covers every byte", cpos, fmt.Sprintf("the class table has %d entries and the interpreter indexes it with the byte it read: any input byte ≥ %d (UTF-8 text, say) panics with an index out of range", at.Len(), at.Len()))
 			return nil
-		} else if !ok || at.Len() != 256 {
+		} else if !ok || at.Len() < 256 {
 			c.undecided("R-CLASSOF", "shell.classOf", cpos, "classOf is not a [256] array")
 			return nil
 		}
